@@ -141,6 +141,8 @@ type Event struct {
 	Cseed int64           `json:"cseed"`
 	Cfg   json.RawMessage `json:"cfg,omitempty"`
 	File  string          `json:"file,omitempty"`
+	Spell string          `json:"spell,omitempty"` // Cfg: spelling of the match criteria in this rendering; Req: same
+	Named [][]string      `json:"named,omitempty"` // Cfg: per route, the criteria written only through named matchers
 	Row   int             `json:"row"`
 	K     int             `json:"k"`
 	Rseed int64           `json:"rseed"`
